@@ -84,8 +84,15 @@ CheckEvent(e) ==
 CheckQuiesce(e) ==
   /\ Judge("C09", "Released", e.goroutines_after <= e.goroutines_before /\ e.fds_after <= e.fds_before,
             <<e.goroutines_before, e.goroutines_after, e.fds_before, e.fds_after>>, "no more goroutines or sockets than before")
-  /\ Judge("C09", "BoundedReturn", e.disturbed \/ e.elapsed_max_ms * 100 <= e.T_ms * 150, <<e.elapsed_max_ms, e.T_ms>>, "within T + slack")
+  /\ Judge("C09", "BoundedReturn", e.disturbed \/ e.elapsed_max_ms * 100 <= e.T_ms * 150 + (IF Has(e, "slack_ms") THEN e.slack_ms * 100 ELSE 0),
+            <<e.elapsed_max_ms, e.T_ms>>, "within T + slack")
   /\ Judge("C09", "NoEarlyGiveUp", e.elapsed_min_ms >= e.T_ms - 2, <<e.elapsed_min_ms, e.T_ms>>, "not before T")
+
+\* C09 "a reply that arrives any time before the deadline is accepted", for a long discovery window: the reply at 0.88 T is
+\* listed, a silent window is an empty list (not an error), and the call takes T
+CheckWindow(e) ==
+  /\ Judge("C09", "TimelyReplyListed", e.disturbed \/ (e.listed = e.expected /\ ~e.failed), <<e.what, e.listed, e.failed>>, e.expected)
+  /\ Judge("C09", "NoEarlyGiveUp", e.elapsed_ms >= e.T_ms - 2, <<e.elapsed_ms, e.T_ms>>, "not before T")
 
 \* C08 at the schedule "A's transport has returned, B runs to completion, only then does A look at its bytes"
 \* (Transport!Finish(a) ... Return(a)): each call's result is the interpretation of the reply to its OWN request
@@ -115,6 +122,7 @@ CheckKept(e) ==
 Check(e) == IF e.op = "W26Intervals" THEN CheckW26(e)
             ELSE IF e.op = "Event" THEN CheckEvent(e)
             ELSE IF e.op = "Quiesce" THEN CheckQuiesce(e)
+            ELSE IF e.op = "Window" THEN CheckWindow(e)
             ELSE IF Has(e, "gate") THEN CheckGate(e)
             ELSE IF Has(e, "kept") THEN CheckKept(e)
             ELSE IF Has(e.a, "extreme")
